@@ -203,6 +203,18 @@ func sliceElems(v ssa.Value, seen map[ssa.Value]bool) (elems []ssa.Value, unknow
 		if b, ok := x.Call.Value.(*ssa.Builtin); ok && b.Name() == "make" {
 			return
 		}
+		if rs := sliceHelperReturns(x); len(rs) > 0 {
+			for _, r := range rs {
+				e, u := sliceElems(r, seen)
+				elems = append(elems, e...)
+				unknown = append(unknown, u...)
+			}
+			return
+		}
+	case *ssa.Parameter:
+		if b, ok := paramBind[x]; ok {
+			return sliceElems(b, seen)
+		}
 	case *ssa.MakeSlice:
 		return
 	case *ssa.UnOp:
@@ -649,6 +661,20 @@ func sliceAlternatives(v ssa.Value, depth int) [][]ssa.Value {
 				}
 			}
 			return out
+		}
+		if rs := sliceHelperReturns(x); len(rs) > 0 {
+			var out [][]ssa.Value
+			for _, r := range rs {
+				out = append(out, sliceAlternatives(r, depth-1)...)
+				if len(out) > 16 {
+					return out[:16]
+				}
+			}
+			return out
+		}
+	case *ssa.Parameter:
+		if b, ok := paramBind[x]; ok {
+			return sliceAlternatives(b, depth-1)
 		}
 	}
 	return [][]ssa.Value{{v}} // opaque: the value itself stands for unknown content
